@@ -594,4 +594,32 @@ def run_case(case, ctx):
 
 
 def classify(case, witness):
+    """Known-finding id from the INPUT mechanism.
+
+    C05:spatial-trailing-repeated-position -- spatial request, the last leg of
+    the polyline has zero 2-D length (last two fixes share x and y) and the
+    last sample lands on the end of the polyline (floor(L/ds)*ds reaches L
+    within rounding); observed as a ZeroDivisionError raised by resample."""
+    try:
+        mode = case.get("mode", "")
+        if not mode.startswith("S"):
+            return None
+        raised = (witness or {}).get("raised")
+        text = raised.brief() if isinstance(raised, M.Raised) else (raised or {}).get("raised", "")
+        if not str(text).startswith("ZeroDivisionError"):
+            return None
+        pts = case["pts"]
+        if not (pts[-1][0] == pts[-2][0] and pts[-1][1] == pts[-2][1]):
+            return None
+        ds = case["arg"] if mode == "S" else ((witness.get("delta_seen") or [None])[-1])
+        if not isinstance(ds, (int, float)) or not ds > 0:
+            return None
+        L = _len2d(pts)
+        if L <= 0:
+            return None
+        N = int(L / ds + 1e-9)
+        if N >= 1 and N * ds >= L * (1 - 1e-12):
+            return "C05:spatial-trailing-repeated-position"
+    except Exception:
+        return None
     return None
